@@ -177,13 +177,16 @@ pub fn run(out: &mut Out, thorough: bool, seed: u64, _extra: &[String]) {
     let reps = if thorough { 120 } else { 14 };
     for rep in 0..reps {
         let lg = r.range(1, if thorough { 7 } else { 5 }) as usize; let n = 1usize << lg;
-        let k = r.range(1, if thorough { 6 } else { 4 }) as usize;
+        // the first three parameter sets: a SMALL first prime under two or three larger ones and a plain modulus several bits wider than it
+        let wide_over_first = rep < 3;
+        let k = if wide_over_first { 3 + (rep % 2) } else { r.range(1, if thorough { 6 } else { 4 }) as usize };
         let minb = lg + 2;
         let mut bits: Vec<usize> = (0..k).map(|_| (*r.pick(&[18usize, 25, 30, 36, 40, 50, 59, 60])).max(minb)).collect();
         match r.below(3) { 0 => bits.sort(), 1 => { bits.sort(); bits.reverse(); } _ => {} }
+        if wide_over_first { bits = (0..k).map(|i| if i == 0 { (*r.pick(&[18usize, 20, 25])).max(minb) } else { *r.pick(&[32usize, 36, 40]) }).collect(); }
         let qs = match pick_primes(&mut r, n, &bits) { Some(v) => v, None => continue };
-        let scheme = *r.pick(&[SchemeType::BFV, SchemeType::BGV, SchemeType::BFV, SchemeType::BGV, SchemeType::CKKS]);
-        let tk = r.below(4);
+        let scheme = if wide_over_first { [SchemeType::BFV, SchemeType::BGV, SchemeType::BFV][rep % 3] } else { *r.pick(&[SchemeType::BFV, SchemeType::BGV, SchemeType::BFV, SchemeType::BGV, SchemeType::CKKS]) };
+        let tk = if wide_over_first { 4 } else { r.below(5) };
         let t = if scheme == SchemeType::CKKS { 0 } else { pick_plain(&mut r, n, tk, &qs) };
         let sp = if r.chance(1, 3) { Some(r.chance(1, 2)) } else { None };
         let s = match make(scheme, n, &qs, t, true, sp) { Some(s) => s, None => { out.raw(&format!("!NOTE parameters rejected {} n={} bits={:?} t={}", scheme_name(scheme), n, bits, t)); continue } };
